@@ -1210,3 +1210,93 @@ func ruleREADCONSUME(p *Program, rep *Report) {
 		rep.Unknown("READ-CONSUME", "anchor", "", "no call of txCursor.Read found in package pq (anchor lost)")
 	}
 }
+
+// ---- IO-OWNER (C01, C03): who may write / sync the data file ----
+
+// ruleIOOWNER: every byte that reaches the data file of an open File goes through the background writer's
+// queue — that is what gives writes and sync barriers a single total order (data → sync → header → sync), the
+// sticky error and the completion hand-off.  So WriteAt and Sync on the file may only be executed below
+// writer.Run, or below initNewFile (creation, before a File object exists).  A "fast path" that writes or
+// syncs the file directly from a transaction bypasses the barrier order.
+func ruleIOOWNER(p *Program, rep *Report) {
+	rep.Rule("IO-OWNER", 3, "every WriteAt (io.WriterAt / vfs.File) and every vfs.File.Sync in package txfile is executed in a function that is only ever reached below (*writer).Run or below initNewFile: nothing writes or syncs the data file of an open File except the background writer")
+	roots := map[string]bool{"(*txfile.writer).Run": true, "txfile.initNewFile": true}
+	var below func(fn *ssa.Function, seen map[*ssa.Function]bool) bool
+	below = func(fn *ssa.Function, seen map[*ssa.Function]bool) bool {
+		if fn == nil {
+			return false
+		}
+		if roots[funcName(fn)] {
+			return true
+		}
+		if seen[fn] {
+			return true
+		}
+		seen[fn] = true
+		if fn.Parent() != nil {
+			return below(fn.Parent(), seen)
+		}
+		ci := p.callIndex()
+		if exportedAPI(fn) || ci.escapes[fn] || len(ci.sites[fn]) == 0 {
+			return false
+		}
+		for _, s := range ci.sites[fn] {
+			if !below(s.Parent(), seen) {
+				return false
+			}
+		}
+		return true
+	}
+	for r := range roots {
+		found := false
+		for _, fn := range p.SrcFuncs() {
+			if funcName(fn) == r {
+				found = true
+			}
+		}
+		if !found {
+			panic(vocabMiss{r})
+		}
+	}
+	n := 0
+	for _, fn := range p.SrcFuncs() {
+		if fnPkgPath(fn) != modPath {
+			continue
+		}
+		for _, b := range fn.Blocks {
+			for _, ins := range b.Instrs {
+				c, ok := ins.(ssa.CallInstruction)
+				if !ok || !c.Common().IsInvoke() {
+					continue
+				}
+				m := c.Common().Method.Name()
+				rt := c.Common().Value.Type()
+				// by method signature, whatever the static interface type (vfs.File, io.WriterAt, txfile.writable)
+				sig, _ := c.Common().Method.Type().(*types.Signature)
+				isIO := false
+				switch {
+				case sig == nil:
+				case m == "WriteAt" && sig.Params().Len() == 2:
+					isIO = true
+				case m == "Sync" && sig.Params().Len() == 1 && isNamed(sig.Params().At(0).Type(), modPath+"/internal/vfs", "SyncFlag"):
+					isIO = true
+				}
+				_ = rt
+				if !isIO {
+					continue
+				}
+				n++
+				rep.Analysed(funcName(fn))
+				key := funcName(fn) + "|" + m
+				if below(fn, map[*ssa.Function]bool{}) {
+					rep.OK("IO-OWNER", key, p.InstrPos(ins), "only reached below writer.Run / initNewFile")
+				} else {
+					rep.Bad("IO-OWNER", key, p.InstrPos(ins), m+" on the data file in "+funcName(fn)+", which is reachable outside the background writer (writer.Run) and outside file creation: the write/sync bypasses the writer's queue, so it is not ordered with the scheduled page writes and sync barriers of a commit, ignores the sticky error and is not waited for")
+				}
+			}
+		}
+	}
+	if n == 0 {
+		rep.Unknown("IO-OWNER", "anchor", "", "no WriteAt / Sync on the data file found in package txfile (anchor lost)")
+	}
+}
